@@ -406,14 +406,14 @@ PLANS["C11"] = dict(
                "with a real local signer against an in-memory repository that hands out the same descriptor value on each Resolve and against "
                "real on-disk OCI layouts, observing signer arguments, pushed subject/annotations/payload, index.json and the caller's maps.",
     level_note="Trusted: TLC, oras-go OCI layout store, notation-core-go envelope verification (used to read back the pushed payload).",
-    rule="cases = all call histories of length MaxCalls over the call alphabet x artifact/store kinds; all non-trivial (each history checks frame conditions)",
-    exhaustive=True,
+    rule="cases = call histories of length MaxCalls over the call alphabet (incl. unusable signing options) x artifact/store kinds, a seed-chosen slice of them; all non-trivial (each history checks frame conditions)",
+    exhaustive=False,
     phases=[dict(
         name="histories",
         gen=dict(module="MC_Notation_C11",
                  cfg=lambda tier, seed: mc_cfg(["Inv_C11", "Inv_Repeatable", "Inv_PushCount", "Inv_Emit"], consts=["MaxCalls = 3" if tier == "thorough" else "MaxCalls = 2"],
                                                extra=["PROPERTY Prop_ArtFrame"]),
-                 select=take_all),
+                 select=slicer2(12000, 150000)),
         drive=dict(driver="notation-sign"),
         validate=dict(module="Trace_NotationSign", cfg=trace_cfg()),
     )],
